@@ -100,21 +100,29 @@ def lookupExact (z : Zone) (name : LName) (qtype : Nat) : Option RRset :=
 /-- the `loop` of `inner_lookup_wildcard`; the argument is the current wildcard name without its
 leading `*`.  `inner_lookup(&wildcard, ..)` is `lookupExact` because the nested
 `inner_lookup_wildcard` returns `None` on a wildcard name.  Climbs parent by parent up to `*.` —
-it does not stop at the closest encloser. -/
-def wildClimb (z : Zone) (qtype : Nat) : LName → Option RRset
-  | [] => lookupExact z [star] qtype
+it does not stop at the closest encloser.  Returns the wildcard name that matched and the RRset. -/
+def wildClimb (z : Zone) (qtype : Nat) : LName → Option (LName × RRset)
+  | [] => (lookupExact z [star] qtype).map fun rr => ([star], rr)
   | l :: rest =>
     match lookupExact z (star :: l :: rest) qtype with
-    | some rr => some rr
+    | some rr => some (star :: l :: rest, rr)
     | none => wildClimb z qtype rest
+
+/-- `name.is_wildcard()` -/
+def isWildcardName (n : LName) : Bool :=
+  match n with
+  | l :: _ => l == star
+  | [] => false
+
+/-- the wildcard owner `inner_lookup_wildcard` ends up using for `name` (if any) with its RRset -/
+def wildSource (z : Zone) (name : LName) (qtype : Nat) : Option (LName × RRset) :=
+  match name with
+  | [] => none
+  | l :: rest => if l == star then none else wildClimb z qtype rest
 
 /-- `inner_lookup_wildcard`: the RRset found is re-owned by the query name. -/
 def innerLookupWildcard (z : Zone) (name : LName) (qtype : Nat) : Option RRset :=
-  match name with
-  | [] => none
-  | l :: rest =>
-    if l == star then none
-    else (wildClimb z qtype rest).map fun rr => { name := name, type := rr.type, rdatas := rr.rdatas }
+  (wildSource z name qtype).map fun (_, rr) => { name := name, type := rr.type, rdatas := rr.rdatas }
 
 /-- `InnerInMemory::inner_lookup` -/
 def innerLookup (z : Zone) (name : LName) (qtype : Nat) : Option RRset :=
